@@ -494,6 +494,84 @@ def case_model(c):
 
 # ------------------------------------------------------------------------ run
 
+# -------------------------------------------- grids far away from the origin
+FN_FAR = 'mc.checks.c15_volavg:case_far'
+FAR_ORIGINS = ((500000.0, 6700000.0, -2000.0), (-3.3e6, 1.2e5, 7.7e4),
+               (0.0, 0.0, 0.0))
+FAR_UNITS = (2.0, 25.0, 100.0)
+FAR_LATS = (((0, 1, 2, 3, 4), (1, 2, 3, 4, 5)),      # same widths, shifted
+            ((0, 1, 2, 3, 4), (0, 1, 2, 3, 4)),      # equal
+            ((0, 2, 4, 6), (1, 3, 5, 7)),            # same widths, shifted
+            ((0, 1, 3, 6), (0, 2, 5, 6)),            # non-nested
+            ((1, 2, 4, 5), (0, 3, 6)))               # overhang
+
+
+def case_far(c):
+    """Volume averaging depends on node DIFFERENCES only: the same pairs of
+    grids (also pairs with identical widths shifted by one cell - which a
+    tolerance relative to the coordinates mistakes for equal grids) at
+    UTM-like origins give the reference result."""
+    from emg3d import maps
+    org = FAR_ORIGINS[c['origin']]
+    old = [org[d] + FAR_UNITS[d]*np.asarray(FAR_LATS[p][0], float)
+           for d, p in enumerate(c['pairs'])]
+    new = [org[d] + FAR_UNITS[d]*np.asarray(FAR_LATS[p][1], float)
+           for d, p in enumerate(c['pairs'])]
+    gold, gnew = mesh_from_nodes(old), mesh_from_nodes(new)
+    # reference from the lattice coordinates (exact small integers)
+    lo = [np.asarray(FAR_LATS[p][0], float) for p in c['pairs']]
+    ln = [np.asarray(FAR_LATS[p][1], float) for p in c['pairs']]
+    F = volavg.matrix_3d(lo, ln)
+    so, sn = tuple(gold.shape_cells), tuple(gnew.shape_cells)
+    vals = profile(so, 'rnd', ('far', tuple(c['pairs'])))
+    viol, compared = [], 0
+    tol = 1e-12 + 64*np.finfo(float).eps*max(
+        abs(o)/u for o, u in zip(org, FAR_UNITS))
+    for log in (False, True):
+        with warnings.catch_warnings():
+            warnings.simplefilter('ignore')
+            got = maps.interpolate(gold, vals, gnew, method='volume',
+                                   log=log)
+        x = np.log10(vals) if log else vals
+        want = (F @ x.ravel('F')).reshape(sn, order='F')
+        want = 10**want if log else want
+        compared += 1
+        err = np.abs(got - want).max()/np.abs(want).max()
+        if got.shape != sn or not err <= tol*(10 if log else 1):
+            viol.append({
+                'cls': 'volume-average-depends-on-absolute-position',
+                'what': f'origin {org}, lattice pairs {c["pairs"]}, log='
+                        f'{log}: differs from the reference by {err:.2e}',
+                'observed': got, 'expected': want})
+    # the same through Model.interpolate_to_grid (which the solver uses to
+    # bring the model to the computational grid)
+    import emg3d
+    with warnings.catch_warnings():
+        warnings.simplefilter('ignore')
+        m2 = emg3d.Model(gold, vals, mapping='Conductivity'
+                         ).interpolate_to_grid(gnew)
+    want = 10**(F @ np.log10(vals).ravel('F')).reshape(sn, order='F')
+    compared += 1
+    same_grid = [np.allclose(a, b, rtol=0, atol=1e-6*u) for a, b, u in zip(
+        grid_nodes(m2.grid), new, FAR_UNITS)]
+    if m2.property_x.shape != sn or not all(same_grid) or not np.abs(
+            m2.property_x - want).max() <= 10*tol*np.abs(want).max():
+        viol.append({
+            'cls': 'model-interpolation-depends-on-absolute-position',
+            'what': f'origin {org}, lattice pairs {c["pairs"]}: '
+                    'Model.interpolate_to_grid does not return the volume '
+                    'average on the new grid (result lives on the new grid: '
+                    f'{all(same_grid)})'})
+    return {'viol': viol, 'compared': compared, 'transitions': 3,
+            'nontrivial': True, 'outcome': (c['origin'], bool(viol))}
+
+
+def cases_far(tier):
+    n = len(FAR_LATS)
+    return [{'origin': o, 'pairs': p} for o in range(len(FAR_ORIGINS))
+            for p in itertools.product(range(n), repeat=3)]
+
+
 # ------------------------------------------------- gradient back on the model
 SIM_GRIDS = {
     # computational grids (widths per direction, origin) for a model grid of
@@ -641,6 +719,15 @@ def run(ctx):
         ctx.explore('model', FN_MODEL, cases_model(ctx.tier), engine='E1',
                     rule='3-D grid pairs x 4 cases x mu_r x eps_r; per case '
                          'all six mappings through Model.interpolate_to_grid',
+                    time_cap=cap)
+    if ctx.wants('translated-pairs'):
+        ctx.explore('translated-pairs', FN_FAR, cases_far(ctx.tier),
+                    engine='E1',
+                    rule='full product of 5 lattice pairs per direction '
+                         '(equal, same widths shifted by one cell, '
+                         'non-nested, overhang) at 3 origins (UTM-like, '
+                         'large negative, zero), metre-sized units; linear '
+                         'and log mode vs the lattice reference',
                     time_cap=cap)
     if ctx.wants('simulation-gradient'):
         ctx.explore('simulation-gradient', FN_SIM, cases_simgrad(ctx.tier),
